@@ -726,7 +726,8 @@ func (e *enumerator) enums() {
 // ---------------------------------------------------------------- type names
 
 // typeSites: the places a (broken) type can be written at, as fresh definitions
-var typeSites = []string{"typedef", "constant", "struct", "union", "exception", "list-element", "set-element", "map-key", "map-value", "result", "argument", "throws"}
+var typeSites = []string{"typedef", "constant", "struct", "union", "exception", "list-element", "set-element", "map-key", "map-value", "result", "argument", "throws",
+	"map-key/typedef", "map-key/nested", "map-key/argument", "map-key/result", "map-key/constant", "map-key/throws-sibling", "set-element/nested"}
 
 func (e *enumerator) placeType(site string, m *M, t *idlast.Type) {
 	b := e.b
@@ -750,6 +751,23 @@ func (e *enumerator) placeType(site string, m *M, t *idlast.Type) {
 		addStructLike(m.F, SL(idlast.SKStruct, b.n("MutS"), Fd(1, "mut", MapOf(t, T("i32")), nil)))
 	case "map-value":
 		m.F.Services = append(m.F.Services, Sv(b.n("MutSv"), Fn("f", MapOf(T("string"), ListOf(t)), nil, nil)))
+	// the KEY of a map whose value type is fine (an error on the key must not be lost
+	// when the value resolves), in every kind of position
+	case "map-key/typedef":
+		addTypedef(m.F, b.n("MutTd"), MapOf(t, T("string")))
+	case "map-key/nested":
+		addStructLike(m.F, SL(idlast.SKStruct, b.n("MutS"), Fd(1, "mut", ListOf(MapOf(t, ListOf(T("i64")))), nil)))
+	case "map-key/argument":
+		m.F.Services = append(m.F.Services, Sv(b.n("MutSv"), Fn("f", nil, Fs(Fd(1, "mut", MapOf(t, T("string")), nil)), nil)))
+	case "map-key/result":
+		m.F.Services = append(m.F.Services, Sv(b.n("MutSv"), Fn("f", MapOf(t, T("i32")), nil, nil)))
+	case "map-key/constant":
+		addConst(m.F, b.n("MutC"), MapOf(t, T("i32")), Mp())
+	case "map-key/throws-sibling":
+		addStructLike(m.F, SL(idlast.SKException, b.n("MutE"), Fd(1, "mut", MapOf(t, T("string")), nil)))
+		m.F.Services = append(m.F.Services, Sv(b.n("MutSv"), Fn("f", nil, nil, Fs(Th(1, "e", T(b.n("MutE")))))))
+	case "set-element/nested":
+		addStructLike(m.F, SL(idlast.SKStruct, b.n("MutS"), Fd(1, "mut", MapOf(T("string"), SetOf(t)), nil)))
 	case "result":
 		m.F.Services = append(m.F.Services, Sv(b.n("MutSv"), Fn("f", t, nil, nil)))
 	case "argument":
